@@ -92,7 +92,46 @@ def run(ctx):
                 s_n = unicodedata.normalize('NFKD', words).encode('utf8')
                 p_n = unicodedata.normalize('NFKD', pw).encode('utf8')
                 seed_cases.append(('bip39_seed %s %s' % (s_n.hex(), hexp(p_n)), py, True))
+    # Japanese sentences written with IDEOGRAPHIC SPACE (as in the BIP39 vectors) are the same sentences
+    if 'japanese' in sentences:
+        mj = Mnemonic('japanese')
+        for words, e in rng.sample(sentences['japanese'], 4 if T else 2):
+            wide = words.replace(' ', '\u3000')
+            for pw in ('', '㍍ガバヴァぱばぐゞちぢ十人十色'):
+                try:
+                    py = mj.to_seed(wide, pw).hex()
+                except Exception:
+                    py = 'none'
+                s_n = unicodedata.normalize('NFKD', words).encode('utf8')
+                p_n = unicodedata.normalize('NFKD', pw).encode('utf8')
+                seed_cases.append(('bip39_seed %s %s' % (s_n.hex(), hexp(p_n)), py, True))
+            try:
+                back = hexp(mj.to_entropy(wide))
+            except Exception:
+                back = 'none'
+            if back != e.hex():
+                ctx.violation('a Japanese sentence written with ideographic spaces does not give its entropy',
+                              {'op': 'to_entropy ideographic-space', 'observed': back, 'expected': e.hex()})
     ctx.compare(seed_cases, 'to_seed')
+
+    # ---- sentence + passphrase -> master key (HDKey.from_passphrase): the BIP32 master of the BIP39 seed --------------------------
+    from bitcoinlib.keys import HDKey
+    mk_cases = []
+    for lang in ('english',):          # HDKey.from_passphrase reads the sentence with the default (English) word list
+        for words, e in rng.sample(sentences[lang], 8 if T else 4):
+            pw = rng.choice(passes)
+            s_n = unicodedata.normalize('NFKD', words).encode('utf8')
+            p_n = unicodedata.normalize('NFKD', pw).encode('utf8')
+            seedhex = run_driver(['bip39_seed %s %s' % (s_n.hex(), hexp(p_n))])[0].split(' | ')[0].strip()
+            try:
+                hk = HDKey.from_passphrase(words, password=pw, network='bitcoin')
+                py = 'priv depth=%d fp=%s child=%d chain=%s key=%s pub=%s' % (hk.depth, hk.parent_fingerprint.hex(), hk.child_index, hk.chain.hex(),
+                                                                              hk.private_hex, hk.public_hex)
+            except Exception as ex:
+                py = 'none'
+            ctx.count('from_passphrase:' + lang)
+            mk_cases.append(('bip32 %s m' % seedhex, py, True))
+    ctx.compare(mk_cases, 'from_passphrase')
 
     # ---- invalid sentences: wrong checksum / unknown word -------------------------------------------------------------------
     inv = []
